@@ -300,8 +300,8 @@ impl RunResult {
 /// Run the description in another build of the simulator (the `dev` profile binary: opt-level 0,
 /// what `cargo test` users get) and parse what it prints.
 fn exec_run(desc: &RunDesc, bin: &str) -> RunResult {
-    let dir = "/verif/target/tmp";
-    let _ = std::fs::create_dir_all(dir);
+    let dir = format!("{}/target/tmp", crate::check::home());
+    let _ = std::fs::create_dir_all(&dir);
     let path = format!("{}/runone-{}-{}.json", dir, std::process::id(), desc.seed);
     let mut d = desc.clone();
     if let J::Obj(m) = &mut d.params {
@@ -350,13 +350,15 @@ pub fn runone(path: &str) -> i32 {
     0
 }
 
-pub const DEV_BIN: &str = "/verif/target/debug/circ-sim";
+pub fn dev_bin() -> String {
+    format!("{}/target/debug/circ-sim", crate::check::home())
+}
 
 /// Parent side: fork a child for this run and collect what it reports.
 pub fn fork_run(desc: &RunDesc) -> RunResult {
     if desc.params.gets("profile") == "dev" {
-        if std::path::Path::new(DEV_BIN).exists() {
-            return exec_run(desc, DEV_BIN);
+        if std::path::Path::new(&dev_bin()).exists() {
+            return exec_run(desc, &dev_bin());
         }
         // no dev build available: run in this build and say so
         let mut d = desc.clone();
